@@ -154,38 +154,68 @@ def _reader_obligation(prog: Program, res: Result, fn: Func, sub: ast.Subscript)
 # ------------------------------------------------------------------------------------------------ R17.2
 def _r17_2(prog: Program, res: Result) -> None:
     fn = prog.func("symbolic_math", "simplify_boolean_expressions")
-    table = None
-    for n in walk_own(fn.node):
-        if isinstance(n, ast.Assign) and isinstance(n.value, ast.Dict) and n.value.keys and all(
-                ast_class_name(prog, fn, k) in PYOP.values() for k in n.value.keys if k is not None):
-            if all(ast_class_name(prog, fn, v) in PYOP.values() for v in n.value.values):
-                table = n
-    if table is None:
+    from ..defuse import bindings
+    from ..model import ConstEval
+
+    def op_table(e: ast.AST):
+        """The operator table an expression denotes: a dict display of ast operator classes (directly or through one
+        local), or a module-level constant.  -> (names dict, node to report at, description)"""
+        if isinstance(e, ast.Name):
+            defs = [v for (_s, v) in bindings(fn).get(e.id, [])]
+            if len(defs) == 1 and defs[0] is not None:
+                return op_table(defs[0])
+        if isinstance(e, ast.Dict) and e.keys and all(k is not None for k in e.keys):
+            ks = [ast_class_name(prog, fn, k) for k in e.keys]
+            vs = [ast_class_name(prog, fn, v) for v in e.values]
+            if all(ks) and all(vs):
+                return dict(zip(ks, vs)), e, "local table"
+        try:
+            val = ConstEval(prog, fn.mod).ev(e)
+        except Exception:      # Unresolvable and anything the evaluator cannot model
+            return None
+        if isinstance(val, dict) and val and all(hasattr(k, "name") and hasattr(v, "name") for k, v in val.items()):
+            return {k.name: v.name for k, v in val.items()}, e, norm(e)
+        return None
+
+    # anchor: the statement that swaps the two operands of the comparison (constant brought to the right-hand side)
+    swaps = [s_ for s_ in walk_own(fn.node) if isinstance(s_, ast.Assign) and isinstance(s_.targets[0], ast.Tuple) and isinstance(s_.value, ast.Tuple)
+             and len(s_.value.elts) == 2 and [norm(x) for x in s_.targets[0].elts] == [norm(x) for x in reversed(s_.value.elts)]]
+    if not swaps:
         res.undecided("R17.2", fn.loc(), fn.fq, "mirror table", "operand-swap table not found")
-    else:
-        seen = set()
-        for k, v in zip(table.value.keys, table.value.values):
-            kn, vn = ast_class_name(prog, fn, k), ast_class_name(prog, fn, v)
-            seen.add(kn)
-            ok = MIRROR.get(kn) == vn
-            res.decide(ok, "R17.2", fn.loc(k), fn.fq, f"mirror {kn} -> {vn}",
-                       "c OP x  ==  x MIRROR(OP) c" if ok else f"swapping the operands of {kn} gives {MIRROR.get(kn)}, not {vn}")
-        missing = set(MIRROR) - seen
-        res.decide(not missing, "R17.2", fn.loc(table), fn.fq, "mirror table complete",
-                   "all six operators" if not missing else f"missing {sorted(missing)} (KeyError when the constant is on the left)")
-        # the table must be applied together with the operand swap
-        var = table.targets[0].id if isinstance(table.targets[0], ast.Name) else None
-        uses = [n for n in walk_own(fn.node) if isinstance(n, ast.Subscript) and isinstance(n.value, ast.Name) and n.value.id == var]
-        for u in uses:
+    for sw in swaps:
+        host = parent(sw)
+        block = next((getattr(host, f) for f in ("body", "orelse", "finalbody") if sw in getattr(host, f, [])), [])
+        lookups = [x for st in block for x in ast.walk(st) if isinstance(x, ast.Subscript) and isinstance(x.ctx, ast.Load) and op_table(x.value) is not None]
+        if not lookups:
+            res.bad("R17.2", fn.loc(sw), fn.fq, norm(sw), "the operands are swapped in a branch that does not mirror the operator through a table of comparison operators")
+            continue
+        for u in lookups:
+            names, at, what = op_table(u.value)
+            for kn in sorted(set(names) | set(MIRROR)):
+                vn = names.get(kn)
+                if kn not in MIRROR:
+                    continue      # entries for operators the rewrite never sees (In, Is, ...) are not used here
+                ok = MIRROR.get(kn) == vn
+                res.decide(ok, "R17.2", fn.loc(at) if what == "local table" else fn.loc(u), fn.fq, f"mirror {kn} -> {vn}",
+                           "c OP x  ==  x MIRROR(OP) c" if ok else
+                           (f"swapping the operands of {kn} gives {MIRROR.get(kn)}, not {vn}" if vn else f"{kn} is missing from the table (KeyError when the constant is on the left)")
+                           + (f" [{what} is not the mirror table: negating an operator is not reading it from the other side]" if what != "local table" else ""))
             st = u
             while not isinstance(st, ast.stmt):
                 st = parent(st)
-            host = parent(st)
-            swap = any(isinstance(s, ast.Assign) and isinstance(s.targets[0], ast.Tuple) and isinstance(s.value, ast.Tuple)
-                       and [norm(x) for x in s.targets[0].elts] == [norm(x) for x in reversed(s.value.elts)]
-                       for s in getattr(host, "body", []))
-            res.decide(swap, "R17.2", fn.loc(u), fn.fq, norm(st), "operator mirrored in the same branch that swaps the operands" if swap else
-                       "operator mirrored without swapping the operands (or vice versa)")
+            res.ok("R17.2", fn.loc(u), fn.fq, norm(st), "operator mirrored in the same branch that swaps the operands")
+    # every OTHER use of a mirror table must sit in a branch that swaps
+    for u in [x for x in walk_own(fn.node) if isinstance(x, ast.Subscript) and isinstance(x.ctx, ast.Load) and isinstance(x.value, ast.Name)]:
+        t = op_table(u.value)
+        if t is None or t[2] != "local table" or t[0] != MIRROR:
+            continue
+        st = u
+        while not isinstance(st, ast.stmt):
+            st = parent(st)
+        host = parent(st)
+        block = next((getattr(host, f) for f in ("body", "orelse", "finalbody") if st in getattr(host, f, [])), [])
+        if not any(sw in block for sw in swaps):
+            res.bad("R17.2", fn.loc(u), fn.fq, norm(st), "operator mirrored without swapping the operands")
     # two-sided templates of simplify_constrained_range
     fn2 = prog.func("symbolic_math", "simplify_constrained_range")
     pairs = 0
